@@ -8,6 +8,7 @@ import Bmc.Proofs.GenHs.Wrappers
 import Bmc.Proofs.GenHs.NewV2Session
 import Bmc.Proofs.GenHs.Examples
 import Bmc.Proofs.EndToEnd.HandshakeC02
+import Bmc.Proofs.EndToEnd.DiscoveryC12
 #print axioms Bmc.Proofs.C12.choose_first_supported
 #print axioms Bmc.Proofs.C12.none_supported
 #print axioms Bmc.Proofs.C12.singleton_no_discovery
@@ -45,3 +46,6 @@ import Bmc.Proofs.EndToEnd.HandshakeC02
 #print axioms Bmc.Proofs.EndToEnd.hsRun_sound
 #print axioms Bmc.Proofs.EndToEnd.viewAnswers_honest
 #print axioms Bmc.Proofs.EndToEnd.generated_newV2Session_sound
+#print axioms Bmc.Proofs.EndToEnd.retrieveLoop_congr
+#print axioms Bmc.Proofs.EndToEnd.determineFull_congr
+#print axioms Bmc.Proofs.EndToEnd.generated_determineCipherSuite_first_preference
